@@ -94,6 +94,11 @@ func buildPool() {
 			add(pre+"\tJNE zs\n\tRESB 2\nzs:\n\tDW zs\n", fmt.Sprintf("short-at-%d", k))
 			add("[BITS 32]\n"+pre+"\tJNE zs\n\tRESB 2\nzs:\n\tDD zs\n", fmt.Sprintf("short32-at-%d", k))
 		}
+		// the same identifier as an EQU constant in one program and as a label (or an undefined-at-first forward
+		// label) in others: symbol or macro tables that survive a run show when the second one is assembled
+		add("zcol\tEQU\t5\nzcol2\tEQU\tzcol*2\n\tMOV AX,zcol\n\tDB zcol2\n", "collide-equ")
+		add("\tDB 1,2,3\nzcol:\n\tDW zcol\n\tJMP zcol\nzcol2:\n\tMOV AX,zcol2\n", "collide-label")
+		add("[BITS 32]\n\tJMP zcol\n\tDB 9\nzcol:\n\tDD zcol\n\tMOV EAX,zcol2\nzcol2:\n", "collide-label32")
 		// tiny programs: one catalogue statement, a label after it, both modes
 		ntiny := 20
 		if tier() == "thorough" {
@@ -133,7 +138,7 @@ func buildPool() {
 }
 
 type HistAction struct {
-	Kind string `json:"k"` // inproc | junk | reuse | cli | fail
+	Kind string `json:"k"` // inproc | junk | stale | reuse | cli | fail
 	Prog int    `json:"p"`
 }
 
@@ -179,6 +184,14 @@ func checkC10(c HistCase) Verdict {
 			r := asm.AssembleTo(src, dst, false)
 			got = r.Out
 			os.Remove(dst)
+		case "stale":
+			// destination pre-filled with the right image followed by further bytes (the remains of a longer
+			// program): an "is it up to date" shortcut that looks at a prefix would leave it alone
+			os.WriteFile(dst, append(append([]byte{}, want...), []byte("stale tail of a longer image")...), 0o644)
+			r := asm.AssembleTo(src, dst, false)
+			got = r.Out
+			os.Remove(dst)
+			special = true
 		case "junk":
 			// destination pre-filled with more bytes than the image
 			junk := bytes.Repeat([]byte{0xa5, 0x5a, 0xff, 0x00}, len(want)/4+64)
@@ -259,7 +272,7 @@ var propC10 = &Prop[HistCase]{
 		n := rapid.IntRange(2, 25).Draw(t, "n")
 		var c HistCase
 		for i := 0; i < n; i++ {
-			k := rapid.SampledFrom([]string{"inproc", "inproc", "junk", "reuse", "reuse", "fail", "cli"}).Draw(t, "kind")
+			k := rapid.SampledFrom([]string{"inproc", "inproc", "junk", "stale", "reuse", "reuse", "fail", "cli"}).Draw(t, "kind")
 			if k == "cli" && rapid.IntRange(0, 3).Draw(t, "clirare") != 0 {
 				k = "inproc"
 			}
